@@ -170,6 +170,24 @@ std::string op_iter(std::string const &_op, line_t const &L)
                       e.read();
                       return L.par.at(idx++) == 1 ? fcppt::algorithm::update_action::keep : fcppt::algorithm::update_action::remove;
                     }};
+  if (_op == "algseqitervec")
+  {
+    auto v{mk_vec<T>(L.args[0])};
+    c05::mark(v);
+    // erase shifts the later elements: the answer is looked up by the identity of the element
+    auto const by_id{[&L](T const &e)
+                     {
+                       e.read();
+                       for (std::size_t i = 0; i < L.n(0); ++i)
+                         if (L.args[0].ids[i] == e.id)
+                           return L.par.at(i) == 1 ? fcppt::algorithm::update_action::keep : fcppt::algorithm::update_action::remove;
+                       throw bad_op{};
+                     }};
+    g_log.clear();
+    fcppt::algorithm::sequence_iteration(v, by_id);
+    event_log const log{g_log};
+    return finish("-", "-", {slots(v)}, log);
+  }
   if (_op == "algseqiter")
   {
     auto l{mk_list<T>(L.args[0])};
@@ -424,7 +442,7 @@ bool dispatch(std::string const &_op, line_t const &L, std::string &_out)
 {
   if (_op == "algfind" || _op == "algindexof" || _op == "algcontains" || _op == "algfindif" || _op == "algfindby")
     return (_out = op_find<T>(_op, L), true);
-  if (_op == "algmapiter" || _op == "algmapiter2" || _op == "algseqiter")
+  if (_op == "algmapiter" || _op == "algmapiter2" || _op == "algseqiter" || _op == "algseqitervec")
     return (_out = op_iter<T>(_op, L), true);
   if (_op == "alggenerate" || _op == "continsert" || _op == "setunion" || _op == "setdiff" || _op == "setinter" || _op == "mapvalcopy" ||
       _op == "atopt" || _op == "maybeback" || _op == "maybefront" || _op == "findoptmapped" || _op == "indexmapget")
